@@ -18,6 +18,10 @@
 
 package bfe_http
 
+import (
+	"strings"
+)
+
 // This file deals with lexical matters of HTTP
 
 var isTokenTable = [127]bool{
@@ -107,4 +111,31 @@ func isToken(r rune) bool {
 
 func isNotToken(r rune) bool {
 	return !isToken(r)
+}
+
+// validMethod reports whether method is a valid HTTP token.
+func validMethod(method string) bool {
+	return len(method) > 0 && strings.IndexFunc(method, isNotToken) == -1
+}
+
+// validHeaderFieldName reports whether name is a valid HTTP token.
+func validHeaderFieldName(name string) bool {
+	return len(name) > 0 && strings.IndexFunc(name, isNotToken) == -1
+}
+
+// validHeaderFieldValue reports whether v can be written as a field value:
+// CR and LF are replaced by spaces when a header is written, any other
+// control character except HTAB is invalid.
+func validHeaderFieldValue(v string) bool {
+	for i := 0; i < len(v); i++ {
+		b := v[i]
+		if (b < ' ' && b != '\t' && b != '\r' && b != '\n') || b == 0x7f {
+			return false
+		}
+	}
+	return true
+}
+
+func isCTLOrSpace(r rune) bool {
+	return r <= ' ' || r == 0x7f
 }
